@@ -423,6 +423,46 @@ def r9_property_getters(chk, prog, rule='R9'):
     chk.check(len(set(flags.values())) == len(flags), rule, T, 'the three properties are three flags', '', '%s' % flags)
 
 
+def r10_listing_data_is_configuration(chk, prog, rule='R10'):
+    """R10: what the usage lists about an argument (checks, constraints, the hidden / deprecated / mandatory flags, the
+    print-default switch) is configuration: the members behind hasCheck()/hasConstraint()/... are modified only by
+    constructors, the destructor and the definition-time API (add* / set* / unset*), never by a function that runs
+    while a command line is evaluated - otherwise the usage printed after some arguments were used differs from
+    the usage printed before"""
+    T = 'celma::prog_args::detail::TypedArgBase'
+    getters = ('hasCheck', 'hasConstraint', 'isHidden', 'isDeprecated', 'isMandatory', 'printDefault', 'isReplaced')
+    fields = set()
+    for g in getters:
+        f = prog.one(T, g)
+        fields |= {x['ref'].get('name') for x in f.walk() if x.get('k') == 'MemberExpr' and x['ref'].get('dk') == 'Field'}
+    chk.require(len(fields) >= 6, 'members behind the listing getters: %s' % sorted(fields))
+    n = 0
+    for f in prog.functions:
+        if f.classq != T or f.body is None:
+            continue
+        allowed = f.d.get('ctor') or f.short.startswith('~') or f.short.startswith(('add', 'set', 'unset')) or \
+            f.short in ('operator=',)
+        for x in f.walk():
+            fld = None
+            if x.get('k') in ('BinaryOperator', 'CompoundAssignOperator') and x.get('op', '').endswith('=') and \
+                    x.get('op') not in ('==', '!=', '<=', '>='):
+                fld = field_name(children(x)[0])
+            elif x.get('k') == 'CXXOperatorCallExpr' and x.get('op') in ('=', '+='):
+                fld = field_name(call_args(x)[0])
+            elif x.get('k') == 'CXXMemberCallExpr' and not x.get('cconst') and field_name(object_of(x)) in fields and \
+                    (x.get('callee') or '').split('::')[-1] not in ('begin', 'end', 'empty', 'size', 'cbegin', 'cend'):
+                fld = field_name(object_of(x))
+            elif x.get('k') == 'CallExpr':
+                for a, pk in zip(call_args(x), x.get('pk') or []):
+                    if pk in ('ref', 'ptr') and field_name(a) in fields:
+                        fld = field_name(a)
+            if fld in fields:
+                n += 1
+                chk.check(bool(allowed), rule, f.name, 'the listing data %s is changed by the definition-time API only'
+                          % fld, f.loc(x), '%s() runs during the evaluation of a command line' % f.short)
+    chk.require(n >= 8, 'writes of the listing data found: %d' % n)
+
+
 def r4_one_settings_object(chk, prog):
     """'visible under the CURRENT settings': the usage settings (print hidden / deprecated, short-only / long-only)
     live in one UsageParams object per handler family; the arguments that change them at run time write into that
@@ -498,6 +538,8 @@ def run(chk):
     r5_visibility_arguments(chk, prog)
     chk.rule('R7', 'default value, check, constraint and hidden mark are listed whenever configured', 4)
     r7_extras(chk, prog)
+    chk.rule('R10', 'checks, constraints and flags listed in the usage are changed by the definition-time API only', 8)
+    r10_listing_data_is_configuration(chk, prog)
     chk.rule('R9', 'isMandatory/isHidden/isDeprecated report the configured properties', 7)
     r9_property_getters(chk, prog)
     chk.rule('R8', 'every display setting is switched by the argument / start flag named after it', 15)
